@@ -64,6 +64,13 @@ func (w *WalletManager) constructTxIn(inputs []*TxIn, lockTime uint64) (*wire.Ms
 		}
 
 		prevOut := wire.NewOutPoint(txHash, input.Vout)
+		for _, added := range mtx.TxIn {
+			if added.PreviousOutPoint == *prevOut {
+				// the same output listed twice would be spent (and counted) twice
+				logging.CPrint(logging.ERROR, "duplicate input", logging.LogFormat{"txid": input.TxId, "vout": input.Vout})
+				return nil, nil, massutil.ZeroAmount(), ErrInvalidParameter
+			}
+		}
 		txIn := wire.NewTxIn(prevOut, nil)
 		if lockTime != 0 {
 			txIn.Sequence = wire.MaxTxInSequenceNum - 1 // sequence lock disabled
